@@ -138,6 +138,10 @@ func Do(c *sim.Cluster, a Action) error {
 				return fmt.Errorf("no anchor with index >= %d yet", a.Lim)
 			}
 		}
+		if a.Fault == "reqF" {
+			// nobody answers the fast-forward requests (peers not reachable yet)
+			return c.FastForward(a.A, &sim.Plan{DropReq: map[string]bool{"ff": true}})
+		}
 		if a.B > 0 {
 			return c.FastForward(a.A, &sim.Plan{FFFrom: a.B})
 		}
